@@ -149,6 +149,25 @@ type frame struct {
 	visits           map[*ssa.BasicBlock]int
 	skipPhis         bool
 	g                *gstate
+	cur              ssa.Instruction // instruction being executed (diagnostics)
+}
+
+func (fr *frame) curInstrPos() token.Pos {
+	if fr.cur == nil {
+		return token.NoPos
+	}
+	if p := fr.cur.Pos(); p.IsValid() {
+		return p
+	}
+	// instructions without a position of their own: fall back to the nearest one in the block
+	if b := fr.cur.Block(); b != nil {
+		for _, in := range b.Instrs {
+			if p := in.Pos(); p.IsValid() {
+				return p
+			}
+		}
+	}
+	return token.NoPos
 }
 
 func (fr *frame) get(key ssa.Value) value {
@@ -287,6 +306,12 @@ func visitInstr(fr *frame, instr ssa.Instruction) continuation {
 		fr.runDefers()
 
 	case *ssa.Panic:
+		if x, ok := fr.get(instr.X).(iface); ok {
+			if m, ok := x.v.(string); ok && strings.HasPrefix(m, "zz_verifmodel: ") {
+				// an environment model declining an input it does not cover
+				panic(unsupported(m))
+			}
+		}
 		panic(targetPanic{fr.get(instr.X)})
 
 	case *ssa.Send:
@@ -378,6 +403,9 @@ func visitInstr(fr *frame, instr ssa.Instruction) continuation {
 		fr.env[instr] = makeMap(instr.Type().Underlying().(*types.Map).Key(), reserve)
 
 	case *ssa.Range:
+		if m, ok := fr.get(instr.X).(*omap); ok && m != nil {
+			fr.raceObj(m, false, "a map (range)")
+		}
 		fr.env[instr] = fr.rangeIter(fr.get(instr.X), instr.X.Type())
 
 	case *ssa.Next:
@@ -416,6 +444,9 @@ func visitInstr(fr *frame, instr ssa.Instruction) continuation {
 		fr.env[instr] = fr.indexVal(x, idx)
 
 	case *ssa.Lookup:
+		if m, ok := fr.get(instr.X).(*omap); ok && m != nil {
+			fr.raceObj(m, false, "a map (lookup)")
+		}
 		fr.env[instr] = fr.lookup(instr, fr.get(instr.X), fr.get(instr.Index))
 
 	case *ssa.MapUpdate:
@@ -423,6 +454,7 @@ func visitInstr(fr *frame, instr ssa.Instruction) continuation {
 		if m == nil {
 			panic(runtimeError("assignment to entry in nil map"))
 		}
+		fr.raceObj(m, true, "a map (update)")
 		fr.mapUpdate(m, fr.get(instr.Key), fr.get(instr.Value))
 
 	case *ssa.TypeAssert:
@@ -547,11 +579,11 @@ func callSSA(i *interpreter, caller *frame, callpos token.Pos, fn *ssa.Function,
 			}
 		}
 		name := fn.String()
-		if r, ok := i.intrinsic(fr, fn, name, args); ok {
-			return r
-		}
 		if m := i.models[name]; m != nil && m != fn {
 			return callSSA(i, caller, callpos, m, args, nil)
+		}
+		if r, ok := i.intrinsic(fr, fn, name, args); ok {
+			return r
 		}
 		if ext := externals[name]; ext != nil {
 			if i.mode&EnableTracing != 0 {
@@ -650,6 +682,7 @@ func runFrame(fr *frame) {
 					fmt.Fprintln(os.Stderr, "\t", instr)
 				}
 			}
+			fr.cur = instr
 			if visitInstr(fr, instr) == kReturn {
 				return
 			}
